@@ -7,6 +7,11 @@ CONSTANTS MaxLen = 2
  Stride = 1
  LineOff = 1
  LineInGroupFix = TRUE
+ Truncs = {"none"}
+ DeltaStamp = "token"
+ NumberEof = TRUE
+ EofStamp = FALSE
+ RecordedEofDev = TRUE
  RecordedLineDev = 1
  Emit = FALSE
 INVARIANTS SameButRecorded SameProbes
